@@ -152,4 +152,27 @@ example : (run 0 [ { fin := 100, lpb := 95, leaves := [⟨90, 7⟩], l2 := [] },
                    { fin := 110, lpb := 105, leaves := [⟨90, 7⟩, ⟨104, 8⟩], l2 := [] } ]).2
     = [.notReady 100, .injected 7 100] := by decide
 
+/-- **what is injected stays in the L1 info tree**: an L1 reorg from block `k` on, `k` above the finalized block `T` a root
+    was fetched for, followed by whatever the new fork brings (leaves of blocks `k` and above), does not change the most
+    recent root at or below `T` — the roots the oracle injects are not affected by reorgs of non-finalized blocks -/
+theorem C15_final_stable (leaves more : List Leaf) (k T : Nat) (hk : T < k) (hmore : ∀ l ∈ more, k ≤ l.block) :
+    latestUntil (reorgLeaves leaves k ++ more) T = latestUntil leaves T := by
+  unfold latestUntil reorgLeaves
+  rw [List.filter_append, List.filter_filter]
+  have h1 : more.filter (fun l => decide (l.block ≤ T)) = [] := by
+    rw [List.filter_eq_nil_iff]
+    intro l hl
+    have := hmore l hl
+    simp only [decide_eq_true_eq]; omega
+  have h2 : leaves.filter (fun a => decide (a.block ≤ T) && decide (a.block < k)) = leaves.filter (fun l => decide (l.block ≤ T)) := by
+    apply List.filter_congr
+    intro l _
+    by_cases h : l.block ≤ T
+    · have : l.block < k := by omega
+      simp [h, this]
+    · simp [h]
+  rw [h1, h2, List.append_nil]
+
+example : latestUntil (reorgLeaves [⟨90, 7⟩, ⟨104, 8⟩, ⟨107, 9⟩] 105 ++ [⟨106, 10⟩]) 104 = some ⟨104, 8⟩ := by decide
+
 end Aggkit.Oracle
